@@ -3,7 +3,14 @@ package main
 // Rng is SplitMix64: every random choice of a run derives from one seed so a disagreement replays exactly.
 type Rng struct{ s uint64 }
 
-func NewRng(seed uint64) *Rng { return &Rng{s: seed*0x9E3779B97F4A7C15 + 0x1234567} }
+// NewRng scrambles the seed first: the streams of neighbouring seeds are unrelated (with s = seed*gamma + c they
+// would be shifts of one another).
+func NewRng(seed uint64) *Rng {
+	z := seed + 0x1234567
+	z = (z ^ (z >> 30)) * 0xBF58476D1CE4E5B9
+	z = (z ^ (z >> 27)) * 0x94D049BB133111EB
+	return &Rng{s: z ^ (z >> 31)}
+}
 
 func (r *Rng) U64() uint64 {
 	r.s += 0x9E3779B97F4A7C15
@@ -18,12 +25,12 @@ func (r *Rng) Intn(n int) int {
 	}
 	return int(r.U64() % uint64(n))
 }
-func (r *Rng) Bool() bool          { return r.U64()&1 == 1 }
-func (r *Rng) Chance(p int) bool   { return r.Intn(100) < p }
-func (r *Rng) U32() uint32         { return uint32(r.U64()) }
+func (r *Rng) Bool() bool           { return r.U64()&1 == 1 }
+func (r *Rng) Chance(p int) bool    { return r.Intn(100) < p }
+func (r *Rng) U32() uint32          { return uint32(r.U64()) }
 func (r *Rng) Range(lo, hi int) int { return lo + r.Intn(hi-lo+1) }
-func (r *Rng) Fork() *Rng          { return NewRng(r.U64()) }
-func Pick[T any](r *Rng, xs []T) T { return xs[r.Intn(len(xs))] }
+func (r *Rng) Fork() *Rng           { return NewRng(r.U64()) }
+func Pick[T any](r *Rng, xs []T) T  { return xs[r.Intn(len(xs))] }
 func (r *Rng) Perm(n int) []int {
 	p := make([]int, n)
 	for i := range p {
